@@ -97,8 +97,8 @@ def suite_padded(ctx):
                                 elif k:
                                     want = with_extra(c.expect, ['0:0:0:-:-:%s:-' % '+'.join(['0/-/-'] * k)])
                             elif grp == 'extrec' and not ign:
-                                ext = int(c.dline.split(' ext=i')[1].split(' ')[0])
-                                k = n // (4 + ext)
+                                ext = c.zero_ext            # size of the extended data of DTC 0 (None: sizes per DTC without an entry for DTC 0)
+                                k = 0 if ext is None else n // (4 + ext)
                                 if k == 1:
                                     recno = c.good[1]
                                     want = with_extra(c.expect, ['0:0:0:-:-:-:%d/%s' % (recno, ('00' * ext) or '-')])
